@@ -246,6 +246,7 @@ def agent_cases(max_contacts):
                 yield {'kind': 'agent', 'contacts': [list(c) for c in combo], 'action': action}
             if count == 1:
                 yield {'kind': 'agent', 'contacts': [list(c) for c in combo], 'action': 'shutdown', 'late_accept': True}
+                yield {'kind': 'agent', 'contacts': [list(c) for c in combo], 'action': 'shutdown', 'late_connect': True}
             if count <= 2:
                 # the peer of the first contact hangs from the moment of the shutdown on (connection open, nothing sent
                 # any more); with an idle time configured no contact may stay half-open
@@ -270,6 +271,11 @@ def execute_agent(case):
         late = world.late_accept()
         desc += ' + a peer connecting during the wait'
         out.label('late-accept')
+    if case.get('late_connect') and action == 'shutdown' and not world.stops:
+        # while the agent waits for its sessions to end it is asked to make a new connection (Agent.connect)
+        late = world.late_connect()
+        desc += ' + a connect() during the wait'
+        out.label('late-connect:refused' if late.hdl is None else 'late-connect:made')
     if action == 'stop':
         left = [c.index for c in world.contacts if not c.real_sock.closed]
         if left:
